@@ -578,6 +578,7 @@ struct Ctx
    bool dead = false;          // twin states diverged (or handle gone): stop the history
    bool inconsistent = false;  // history ended because the C++ library left both objects internally inconsistent
    int focus = -1;             // risky function enabled in this case only (-1: none)
+   bool ctest = false;         // replay of the C test program
    int nfile = 0;
    std::vector<std::string> files;
    std::string lastInstFile, lastBasisFile, lastSetFile;
@@ -1518,6 +1519,18 @@ static bool opOptimize(Ctx& c)
 {
    // manual sync mode: an exact solve requires synchronised LPs and the C interface has no sync call -> real solves only
    if(c.M->intParam(SoPlex::SYNCMODE) == SoPlex::SYNCMODE_MANUAL && rationalSolveSelected(c)) return false;
+   // Exact solves of this tree read beyond internal arrays on some small LPs (found by ASan in SoPlexBase::_lowerFinite <-
+   // _computeBoundsViolation / _transformUnbounded); without ASan such a solve silently depends on heap garbage and twin
+   // objects diverge.  Exact solves are therefore performed only in the ASan flavour, where the probe below vets the C++
+   // run, (and in the replay of the C test program); focus histories do without them in every flavour.
+   if(rationalSolveSelected(c) && !c.ctest)
+   {
+      if(c.focus >= 0) return false;
+#if !VL_ASAN
+      sink().count("guard.exact_solve_skipped_without_asan");
+      return false;
+#endif
+   }
    // a second exact solve right after an exact solve that ended INFEASIBLE crashes inside the C++ library
    // (_untransformFeasibility removes a column that is not there): such a re-solve is left to the exact-solve properties
    if(rationalSolveSelected(c) && (int)c.M->status() == (int)SPxSolverBase<double>::INFEASIBLE)
@@ -2347,6 +2360,7 @@ static void caseGeneral(Ctx& c, const std::string& mode)
 // released with free() as the header documents
 static void caseCTest(Ctx& c, int part)
 {
+   c.ctest = true;
    startHistory(c);
    if(c.dead) return;
    auto expectD = [&](const char* what, double got, double want)
